@@ -81,6 +81,16 @@ def run(ctx):
             okv = p.ret_variant() == ("Ok",) and mentions(p.ret, lambda s_: s_[0] == "agg" and s_[2] == "KeyAlreadyExists")
             if eff or not okv:
                 bad2.append("present key: effects %s, returned %s" % ([x.callee.split("::")[-1] for x in eff][:3], fmt(p.ret)[:80]))
+        # R07.6 a put may be refused for any *other* reason only after its key was found absent: a refusal decided before
+        # the presence test (e.g. a fast path on the weight) would answer a readable key with the wrong reason
+        bad6 = []
+        for p in paths:
+            reasons = {x[2] for x in subexprs(p.ret) if x[0] == "agg" and x[1].endswith("command::RejectionReason") and x[2]}
+            others = reasons - {"KeyAlreadyExists"}
+            if others and not any(a[0] == "bool" and a[1][0] == "call" and a[1][1] in preds and not a[2] for a in p.atoms):
+                bad6.append("refused with %s on a path that never tested whether the key is present (%s)" % (sorted(others), p.show()))
+        ctx.check(not bad6, "R07.6", "%s|other-refusals-only-for-absent-keys" % name,
+                  "a put answers with a reason other than KeyAlreadyExists only after the presence predicate reported its key absent", f.where(), "; ".join(bad6[:2]))
         ctx.check(not bad2 and n_present >= 1, "R07.2", "%s|present-rejects-without-effect" % name,
                   "when the key is present the put is answered Ok(rejected(KeyAlreadyExists)) immediately, nothing is queued or changed", f.where(), "; ".join(bad2[:2]))
     ctx.floor("R07.1", "put APIs queueing Put/PutWithTTL behind a presence test", n_api, 3)
@@ -150,7 +160,8 @@ def run(ctx):
 
 
 def dashmap_lookup_fn(F, S, fname):
-    for g, bb, t in S.lookup_sites:
-        if g.name == fname:
-            return dashmap_call(t)[0]
-    return None
+    """'get_mut' if the function looks the store up mutably anywhere (the in-place update), else its lookup kind"""
+    kinds = [dashmap_call(t)[0] for g, bb, t in S.lookup_sites if g.name == fname]
+    if "get_mut" in kinds:
+        return "get_mut"
+    return kinds[0] if kinds else None
